@@ -30,7 +30,10 @@ def gen_case(rng):
         "tree": t, "how": rng.choice(["parsed", "api"]), "path": list(path),
         "indent": rng.choice([" ", "  ", "\t", "    ", " \t"]), "align": rng.random() < 0.5, "width": 0,
         "decls": S.gen_decls(rng, S.tree_namespaces(t)) if rng.random() < 0.5 else None,
-        "document": rng.random() < 0.2,
+        "document": rng.random() < 0.25,
+        # comments / PIs before and after the root, some with equal content (seeded C18-9: "is it the last one" by equality)
+        "misc": {"pro": [rng.choice([["c", "x"], ["c", " end "], ["p", "page", "break"]]) for _ in range(rng.choice([0, 0, 1, 2]))],
+                 "epi": [rng.choice([["c", "x"], ["c", " end "], ["p", "page", "break"]]) for _ in range(rng.choice([0, 0, 1, 2, 3]))]},
     }
 
 
@@ -88,16 +91,34 @@ def run_impl(case):
         from delb import Document, FormatOptions
 
         c = dict(case, path=[])
-        root = Document(trees.to_xml(case["tree"])).root if case["how"] == "parsed" else trees.build_api(case["tree"])
-        doc = root.document or Document(root)
+        misc = case.get("misc") or {"pro": [], "epi": []}
+        mx = lambda n: "<!--%s-->" % n[1] if n[0] == "c" else "<?%s %s?>" % (n[1], n[2])  # noqa: E731
+        if case["how"] == "parsed":
+            root = Document("".join(map(mx, misc["pro"])) + trees.to_xml(case["tree"]) + "".join(map(mx, misc["epi"]))).root
+            doc = root.document
+        else:
+            from delb import altered_default_filters
+
+            root = trees.build_api(case["tree"])
+            doc = Document(root)
+            with altered_default_filters():
+                for n in misc["pro"]:
+                    doc.prologue.append(trees.build_api(n))
+                for n in misc["epi"]:
+                    doc.epilogue.append(trees.build_api(n))
         before = trees.extract(doc.root)
         buf = trees.KeepBytesIO()
         try:
             doc.write(buf, format_options=FormatOptions(align_attributes=case["align"], indentation=case["indent"], width=0),
                       namespaces=S.decls_from_items(case["decls"]))
             text = buf.value().decode("utf-8")
-            head = '<?xml version="1.0" encoding="UTF-8"?>\n'
-            res = {"out": text[len(head):]} if text.startswith(head) else {"err": "Header", "msg": text[:60]}
+            # every construct before and after the root on a line of its own (Document.__serialize newline handling)
+            head = '<?xml version="1.0" encoding="UTF-8"?>\n' + "".join(mx(n) + "\n" for n in misc["pro"])
+            tail = "".join("\n" + mx(n) for n in misc["epi"])
+            if text.startswith(head) and text.endswith(tail):
+                res = {"out": text[len(head):len(text) - len(tail)]}
+            else:
+                res = {"err": "DocumentLayout", "msg": "declaration, prologue and epilogue are not on lines of their own: " + text[:300]}
         except Exception as e:  # noqa: BLE001
             res = {"err": type(e).__name__, "msg": str(e)}
         return before, res
